@@ -496,6 +496,29 @@ def check_rt(case, tmp, stats=None):
         stats['rt_identical'] += 1
         if order_of(g) >= 10:
             stats['rt_ten_or_more_vertices'] += 1
+    if not sym and via == 'sio' and fmt in ('dimacs', 'kthlist') and len(repr(g)) % 2 == 0:
+        # second generation: the same text with several comment lines before
+        # the data (as people write them) is read, and the graph obtained is
+        # written again in every format and read back
+        text2 = 'c a graph written by hand\nc edges of the graph follow\nc p edge 9 9 is not the header\n' + text
+        try:
+            with Quiet():
+                H2 = readGraph(io.StringIO(text2), gtype, fmt)
+                for f2 in FORMATS[gtype]:
+                    t3 = write_text(H2, gtype, f2)
+                    H3 = readGraph(io.StringIO(t3), gtype, f2)
+                    o3, pb3 = observe(H3, gtype)
+                    s3 = 'malformed-result' if pb3 else ref.diff(want, o3)
+                    if s3:
+                        out.append(viol('second-generation:%s->%s:%s:%s' % (fmt, f2, grp, s3),
+                                        'file with three comment lines read, written as %s, read back: %r %r'
+                                        % (f2, o3, pb3), case))
+                        break
+                    if stats is not None:
+                        stats['second_generation_roundtrips'] += 1
+        except Exception as e:
+            out.append(viol('second-generation:%s:%s:exception:%s' % (fmt, grp, type(e).__name__),
+                            'a %s file with three comment lines, read and written again: %r' % (fmt, e), case))
     return out
 
 
@@ -676,6 +699,13 @@ def check_cli(case, tmp, stats=None):
             writeGraph(G, pin, gtype)
     except Exception:
         return out             # reported by the round-trip part
+    if fin in ('dimacs', 'kthlist') and len(g['edges']) % 2 == 0:
+        # a file with several comment lines before the data, as people write
+        # them (the second one starts like a data line of the format)
+        with open(pin) as f_:
+            body_ = f_.read()
+        with open(pin, 'w') as f_:
+            f_.write('c a graph written by hand\nc edges of the graph follow\nc p edge 9 9 is not the header\n' + body_)
     if case['explicit']:
         spec = [fin, pin, 'save', fout, pout]
     else:
